@@ -159,3 +159,18 @@ check('C13',
       TB + 'Claim domain: coarse assets with constant limits and no take periods, merged assets without holding cost and discounting '
       '(the documented averaging covers limits and prices only).',
       'Coq proof (merge as value-preserving substitution) + differential correspondence + independent reference LP', 'DESIGN.md 5 C13')
+check('C16',
+      'Theorem C16_scaled_fixed_equiv (every base problem whose variables are all dispatch variables, any sizes, S > 0, 0 <= s in '
+      '[min,max]): (x, s) is feasible for the scaled problem iff x is feasible for the base problem with all bounds and right-hand '
+      'sides multiplied by s/S, and the value is the base value less s x cost rate x duration; the bounds the code adds are shown to '
+      'be implied by the tie rows. Theorem C16_structured_flatten_equiv (any asset list, node lists, steps): the portfolio consisting '
+      'of the structured asset has exactly the feasible points and values of the flat portfolio; at external nodes the outer nodal '
+      'rows are the inner dispatch rows. Per instance: the builders of scaled and structured assets are compared with the '
+      'implementation (incl. one or two external nodes); every generated portfolio is re-solved with scaled assets held at fixed '
+      'scales and compared with the plain portfolio whose base assets carry capacities x s/S (value less fixed costs), free-scale '
+      'optima are compared with fixed-scale optima (>= all sampled, = at the reported scale), and portfolios with structured assets '
+      'are compared with their flattened versions.',
+      TB + 'Base assets with binary or other internal variables are rejected by the code and by the model (C16_scaled_bool_partial). '
+      'For structured assets inside larger portfolios the equivalence is checked per instance (values), the theorem covers the '
+      'portfolio consisting of the structured asset.',
+      'Coq proof + differential correspondence + metamorphic implementation oracle', 'DESIGN.md 5 C16')
